@@ -5,17 +5,23 @@
 (*  op "gene":  inp (domains), res = [exc, v |-> modules], rl = reloads           *)
 (*  op "pair":  up, down (domains), pa, pb = [exc, v |-> modules] before,         *)
 (*              obs = sequence of [same, out |-> [exc, v |-> [merged,m,qa,qb]],   *)
-(*              rl] - one per strand combination                                  *)
+(*              rl] - one per strand combination; qa_eq / qb_eq = TRUE is a mere    *)
+(*              compression: the list equals pa / pb and is not repeated            *)
 EXTENDS NrpsModules, TLC, Json, IOUtils
 VARIABLE l
 Trace == ndJsonDeserialize(IOEnv.TRACE_FILE)
 
 GeneFailed(ev) == BuildClauses(ev.inp, ev.res, ev.rl)
 
+Expand(ev, out) == [exc |-> out.exc,
+                    v |-> [merged |-> out.v.merged, m |-> out.v.m,
+                           qa |-> IF out.v.qa_eq THEN ev.pa.v ELSE out.v.qa,
+                           qb |-> IF out.v.qb_eq THEN ev.pb.v ELSE out.v.qb]]
+
 PairFailed(ev) ==
     IF ev.pa.exc # "" THEN {"build/no_exception:" \o ev.pa.exc}
     ELSE IF ev.pb.exc # "" THEN {"build/no_exception:" \o ev.pb.exc}
-    ELSE UNION {CombineClauses(ev.up, ev.down, ev.obs[k].same, ev.pa.v, ev.pb.v, ev.obs[k].out, ev.obs[k].rl)
+    ELSE UNION {CombineClauses(ev.up, ev.down, ev.obs[k].same, ev.pa.v, ev.pb.v, Expand(ev, ev.obs[k].out), ev.obs[k].rl)
                 : k \in DOMAIN ev.obs}
 
 Failed(ev) == CASE ev.op = "gene" -> GeneFailed(ev)
